@@ -1,6 +1,6 @@
 (* C14/Properties.v — property theorems only. *)
 From Coq Require Import Lia.
-From RM Require Import C08.Proofs C14.Model C14.Proofs.
+From RM Require Import C08.Proofs C14.Model C14.Proofs C14.Proofs2 Gen.C14Reason C14.Source.
 Open Scope Z_scope.
 
 (* Exactly one call stack per entry of the thread list, in the same order, with the same
@@ -128,7 +128,7 @@ Theorem c14_pid_time : forall d : dump,
   (forall m, d_misc d = Some m ->
      process_id d = (if Z.testbit (mi_flags1 m) 0 then Some (mi_pid m) else None) /\
      process_create_time d = (if Z.testbit (mi_flags1 m) 1 then Some (mi_ctime m) else None)) /\
-  (d_misc d = None -> process_id d = d_status_pid d /\ process_create_time d = None).
+  (d_misc d = None -> process_id d = option_map status_pid (d_status d) /\ process_create_time d = None).
 Proof. exact pid_time. Qed.
 Print Assumptions c14_pid_time.
 
@@ -188,7 +188,7 @@ Definition ex_dump : dump :=
                       e_ctx := Some {| c_ip := 20500; c_sp := 8192 |} |};
      d_bp := Some {| b_validity := 3; b_dump_tid := 9; b_req_tid := 5 |};
      d_misc := Some {| mi_flags1 := 1; mi_pid := 42; mi_ctime := 99 |};
-     d_status_pid := Some 77;
+     d_status := Some [80; 105; 100; 58; 9; 55; 55; 10];
      d_modules := [(65536, 4096); (1, 0)];
      d_unloaded := [(20480, 256, 1); (20000, 1000, 2); (20480, 64, 1)];
      d_mems := [(4096, 64); (8192, 64)] |}.
@@ -216,4 +216,100 @@ Example c14_nonvacuous_unloaded :
   choose_stack (d_mems ex_dump)
      {| t_id := 7; t_ctx := None; t_stack := Some 0; t_sbase := 4096 |}
      (Some (FromException, {| c_ip := 20500; c_sp := 8192 |})) = Some 1.
+Proof. vm_compute. repeat split. Qed.
+
+(* ---- round 5 ---- *)
+
+(* The crash-reason and crash-address model IS the source: for every membership function, OS, CPU and exception record the
+   hand-written dispatch equals the decision trees translate/c14_reason.py regenerates from CrashReason::from_exception /
+   from_windows_code / from_windows_error / from_windows_error_with_facility / from_windows_exception / from_mac_exception /
+   from_linux_exception and MinidumpException::get_crash_address on every run (which enumeration is consulted first,
+   parameter-count gates, masks, refinement arms, the constants they are keyed on). *)
+Theorem c14_reason_is_source : forall (lk : Z -> Z -> bool) o c e,
+  crash_reason lk o c e = gen_from_exception lk o c e /\
+  crash_address o c e = gen_crash_address o c e.
+Proof. intros. split; [apply crash_reason_is_source|apply crash_address_is_source]. Qed.
+Print Assumptions c14_reason_is_source.
+
+(* The documented refinements, on the membership tables regenerated from minidump-common/src/errors (gen_lk): Windows code
+   0xC0000409 (__fastfail) is the fast-fail reason carrying information[0] whenever the record has a parameter and the NTSTATUS
+   otherwise - no enumeration consulted earlier shadows it; access violation / in-page error are refined exactly for the
+   documented access types 0 / 1 / 8 with >= 1 / >= 3 parameters. *)
+Theorem c14_windows_refinements_documented : forall c e,
+  (e_code e = 3221226505 ->
+     crash_reason gen_lk OsWindows c e =
+     if 1 <=? e_nparams e then (WindowsStackBufferOverrun, [low32 (e_info0 e)]) else (WindowsNtStatus, [3221226505])) /\
+  (e_code e = 3221225477 ->
+     crash_reason gen_lk OsWindows c e =
+     if (1 <=? e_nparams e) && documented_access (e_info0 e) then (WindowsAccessViolation, [e_info0 e])
+     else (WindowsGeneral, [3221225477])) /\
+  (e_code e = 3221225478 ->
+     crash_reason gen_lk OsWindows c e =
+     if (3 <=? e_nparams e) && documented_access (e_info0 e) then (WindowsInPageError, [e_info0 e; low32 (e_info2 e)])
+     else (WindowsGeneral, [3221225478])).
+Proof.
+  intros c e. split; [apply fast_fail_documented|]. split; [apply access_violation_documented|apply in_page_documented].
+Qed.
+Print Assumptions c14_windows_refinements_documented.
+
+(* Linux / Android on the regenerated tables: a signal of the table is refined by its si_code table exactly for SIGILL,
+   SIGTRAP, SIGFPE, SIGSEGV, SIGBUS, SIGSYS (all six, and the seven refined Mach exceptions, are members of their tables);
+   anything else is LinuxGeneral, a code outside the table Unknown. *)
+Theorem c14_signals_documented : forall c e o, o = OsLinux \/ o = OsAndroid ->
+  crash_reason gen_lk o c e =
+  (if gen_lk EN_LINUX (e_code e) then
+     match linux_refinement (e_code e) with
+     | Some (en, f) => if gen_lk en (e_flags e) then (f, [e_flags e]) else (LinuxGeneral, [e_code e; e_flags e])
+     | None => (LinuxGeneral, [e_code e; e_flags e])
+     end
+   else (Unknown, [e_code e; e_flags e])) /\
+  forallb (gen_lk EN_LINUX) [4; 5; 7; 8; 11; 31] = true /\ forallb (gen_lk EN_MAC) [1; 2; 3; 5; 6; 11; 12] = true.
+Proof. intros c e o Ho. split; [apply signals_documented; exact Ho|exact refined_signals_known]. Qed.
+Print Assumptions c14_signals_documented.
+
+(* Duplicate thread ids: EVERY thread-list entry that carries the requesting id (and is not the dump-writer thread) starts
+   from the exception's context when that is readable - in particular the LAST of them, the one requesting_thread points at. *)
+Theorem c14_duplicate_ids_context : forall (d : dump) ec i ti ci,
+  exc_ctx d = Some ec ->
+  nth_error (d_threads d) i = Some ti -> nth_error (threads_of d) i = Some ci ->
+  target_tid d = Some (t_id ti) -> dump_tid d <> Some (t_id ti) ->
+  cs_ctx ci = Some (FromException, ec) /\ cs_info ci = CsOk /\
+  exists r tr cr, requesting_thread d = Some r /\ (i <= r)%nat /\
+    nth_error (d_threads d) r = Some tr /\ t_id tr = t_id ti /\
+    nth_error (threads_of d) r = Some cr /\ cs_ctx cr = Some (FromException, ec).
+Proof. exact duplicates_context. Qed.
+Print Assumptions c14_duplicate_ids_context.
+
+(* /proc/self/status (any length, any number of lines): the process id is the decimal value of the FIRST line whose key is
+   "Pid" (0 when it exceeds u32 or there is no such line); lines = the pieces between line feeds. *)
+Theorem c14_status_pid : forall pre v post,
+  (forall l b, In l (pre ++ (KEY_PID ++ 58 :: 9 :: v) :: post) -> In b l -> b <> 10) ->
+  (forall l k w, In l pre -> kv_of_line l = Some (k, w) -> zlist_eqb k KEY_PID = false) ->
+  v <> [] -> forallb is_digit v = true ->
+  status_pid (join_lines (pre ++ (KEY_PID ++ 58 :: 9 :: v) :: post)) =
+    (if dec_value v <=? 4294967295 then dec_value v else 0) /\
+  (forall lines, lines <> [] -> (forall l b, In l lines -> In b l -> b <> 10) ->
+     (forall l k w, In l lines -> kv_of_line l = Some (k, w) -> zlist_eqb k KEY_PID = false) ->
+     status_pid (join_lines lines) = 0).
+Proof.
+  intros pre v post H1 H2 H3 H4. split; [apply status_pid_wellformed; assumption|exact status_pid_absent].
+Qed.
+Print Assumptions c14_status_pid.
+
+Example c14_nonvacuous_round5 :
+  crash_reason gen_lk OsWindows X86_64
+    {| e_tid := 1; e_code := 3221226505; e_flags := 0; e_nparams := 1; e_info0 := 4294967296 + 7; e_info1 := 0; e_info2 := 0;
+       e_addr := 0; e_ctx := None |} = (WindowsStackBufferOverrun, [7]) /\
+  crash_reason gen_lk OsLinux X86_64
+    {| e_tid := 1; e_code := 11; e_flags := 1; e_nparams := 0; e_info0 := 0; e_info1 := 0; e_info2 := 0;
+       e_addr := 0; e_ctx := None |} = (LinuxSigsegv, [1]) /\
+  (* "Name:\tx\nPid:\t4242\nPPid:\t1\nPid:\t7\n" *)
+  status_pid [78; 97; 109; 101; 58; 9; 120; 10; 80; 105; 100; 58; 9; 52; 50; 52; 50; 10; 80; 80; 105; 100; 58; 9; 49; 10;
+              80; 105; 100; 58; 9; 55; 10] = 4242 /\
+  status_pid [34; 80; 105; 100; 34; 32; 58; 32; 43; 48; 48; 55; 32; 13] = 7 /\     (* "Pid" : +007 \r *)
+  status_pid [80; 105; 100; 58; 52; 50; 57; 52; 57; 54; 55; 50; 57; 54] = 0 /\     (* Pid:4294967296 *)
+  process_id ex_dump = Some 42 /\
+  process_id {| d_platform := 33281; d_arch := 9; d_time := 0; d_threads := []; d_names := []; d_exc := None; d_bp := None;
+                d_misc := None; d_status := Some [80; 105; 100; 58; 9; 55; 55; 10]; d_modules := []; d_unloaded := [];
+                d_mems := [] |} = Some 77.
 Proof. vm_compute. repeat split. Qed.
